@@ -10,6 +10,7 @@ import time
 from fractions import Fraction
 from pathlib import Path
 
+sys.set_int_max_str_digits(0)
 ROOT = Path(__file__).resolve().parent.parent
 LEAN = ROOT / "lean"
 HARNESS = ROOT / "harness"
@@ -223,9 +224,9 @@ class Run:
         f.write_text(src)
         rc, out = sh(["lake", "env", "lean", str(f)], cwd=LEAN, timeout=1800)
         res = {}
-        for m in re.finditer(r"'([^']+)' depends on axioms: \[([^\]]*)\]", out, flags=re.S):
+        for m in re.finditer(r"'(\S+)' depends on axioms: \[([^\]]*)\]", out, flags=re.S):
             res[m.group(1)] = [a.strip() for a in m.group(2).replace("\n", " ").split(",") if a.strip()]
-        for m in re.finditer(r"'([^']+)' does not depend on any axioms", out):
+        for m in re.finditer(r"'(\S+)' does not depend on any axioms", out):
             res[m.group(1)] = []
         self.notes["audit_cmd"] = f"lake env lean {f}"
         return res
